@@ -257,11 +257,13 @@ Section Machine.
     eapply frame_trans; [|apply frame_set_cplx].
     eapply frame_trans; apply frame_write.
   Qed.
-  Lemma frame_std_polar n o fl s : frame s (std_polar n o fl s).
+  Lemma frame_std_polar_mid n o fl s : frame s (std_polar_mid n o fl s).
   Proof.
-    unfold std_polar. destruct fl as [[r p]|]; [|apply frame_conv].
+    unfold std_polar_mid. destruct fl as [[r p]|]; [|apply frame_conv].
     eapply frame_trans; [apply frame_conv|]. eapply frame_trans; apply frame_write.
   Qed.
+  Lemma frame_std_polar n o fl pw s : frame s (std_polar n o fl pw s).
+  Proof. unfold std_polar. eapply frame_trans; [apply frame_std_polar_mid|apply frame_write]. Qed.
   Lemma frame_fold {X} (f : state -> X -> state) l s :
     (forall s' x, frame s' (f s' x)) -> frame s (fold_left f l s).
   Proof.
@@ -479,33 +481,39 @@ Section Count.
     rewrite Z.eqb_refl in H. discriminate.
   Qed.
 
-  Lemma count_set_fix n v vb u s :
-    (u = true -> unfix_safe s n = true) -> count_inv s -> count_inv (set_fix n v vb u s).
+  Lemma filter_nil_false {A} (f : A -> bool) l x : filter f l = [] -> In x l -> f x = false.
   Proof.
-    intros Hsafe (Hnd & Hone & Hlt & Hex). unfold set_fix.
+    intros H Hx. destruct (f x) eqn:E; [|reflexivity].
+    assert (In x (filter f l)) by (apply filter_In; split; assumption). rewrite H in *. contradiction.
+  Qed.
+
+  Lemma count_set_fix n v vb u s : count_inv s -> count_inv (set_fix n v vb u s).
+  Proof.
+    intros (Hnd & Hone & Hlt & Hex). unfold set_fix.
     destruct (dget n (vars s)) as [c|] eqn:Ec; [|repeat split; assumption].
     unfold count_inv, one_per_cell, cells_below_next, free_exist. simpl.
     destruct u.
-    - specialize (Hsafe eq_refl). unfold ladd. destruct (smem n (trainable s)) eqn:Em.
-      + repeat split; assumption.
-      + apply smem_false in Em. repeat split.
-        * apply NoDup_app_intro_single; assumption.
+    - destruct (filter (fun i => cell_eqb s i c) (trainable s)) as [|x0 l0] eqn:El.
+      + assert (Hno : forall m, In m (trainable s) -> dget m (vars s) <> Some c).
+        { intros m Hm Hc. pose proof (filter_nil_false _ _ m El Hm) as F. unfold cell_eqb in F.
+          rewrite Hc, Z.eqb_refl in F. discriminate. }
+        repeat split.
+        * apply NoDup_app_intro_single; [exact Hnd|]. intros Hn. exact (Hno n Hn Ec).
         * intros a b c0 Ha Hb Hca Hcb.
           apply in_app_or in Ha. apply in_app_or in Hb.
           destruct Ha as [Ha|[Ea|[]]]; destruct Hb as [Hb|[Eb|[]]].
           -- eapply Hone; eauto.
-          -- rewrite <- Eb in Hcb. rewrite Ec in Hcb. injection Hcb as Hcb. rewrite <- Hcb in Hca.
-             rewrite <- Eb. eapply unfix_safe_spec; eauto.
-          -- rewrite <- Ea in Hca. rewrite Ec in Hca. injection Hca as Hca. rewrite <- Hca in Hcb.
-             rewrite <- Ea. symmetry. eapply unfix_safe_spec; eauto.
+          -- exfalso. rewrite <- Eb in Hcb. rewrite Ec in Hcb. injection Hcb as Hcb. subst c0. exact (Hno a Ha Hca).
+          -- exfalso. rewrite <- Ea in Hca. rewrite Ec in Hca. injection Hca as Hca. subst c0. exact (Hno b Hb Hcb).
           -- congruence.
         * exact Hlt.
         * intros m Hm. apply in_app_or in Hm. destruct Hm as [Hm|[Emn|[]]]; [auto|subst m; congruence].
+      + repeat split; assumption.
     - repeat split.
-      + apply lremove_NoDup. exact Hnd.
-      + intros a b c0 Ha Hb. apply Hone; eapply lremove_incl; eauto.
+      + apply NoDup_filter. exact Hnd.
+      + intros a b c0 Ha Hb. apply filter_In in Ha. apply filter_In in Hb. apply Hone; [apply Ha|apply Hb].
       + exact Hlt.
-      + intros m Hm. apply Hex. eapply lremove_incl; eauto.
+      + intros m Hm. apply filter_In in Hm. apply Hex. apply Hm.
   Qed.
 
   (* the trainable-list part of same_real *)
@@ -531,6 +539,22 @@ Section Count.
     - apply IH; [|exact Hn]. destruct (smem m t); apply lremove_NoDup; exact Ht.
   Qed.
 
+  (* the joint fold of same_real: its list part is sr_fold, its state part only writes values *)
+  Lemma frame_copy_val a b s : frame s (copy_val a b s).
+  Proof. unfold copy_val. destruct (read s a); [apply frame_write|apply frame_refl]. Qed.
+  Lemma sr_pair_fold h rest : forall t s,
+    fst (fold_left (sr_step h) rest (t, s)) = sr_fold h rest t /\
+    frame s (snd (fold_left (sr_step h) rest (t, s))).
+  Proof.
+    unfold sr_fold. induction rest as [|n r IH]; intros t s; simpl; [split; [reflexivity|apply frame_refl]|].
+    assert (E0 : sr_step h (t, s) n = if smem n t then (lremove n t, s)
+                 else (lremove h t, if smem h t then copy_val n h s else s)) by reflexivity.
+    rewrite E0. clear E0. destruct (smem n t).
+    - apply IH.
+    - destruct (IH (lremove h t) (if smem h t then copy_val n h s else s)) as [E F]. split; [exact E|].
+      eapply frame_trans; [|exact F]. destruct (smem h t); [apply frame_copy_val|apply frame_refl].
+  Qed.
+
   Lemma dget_fold_dset_cell (c : Z) l : forall vs k,
     dget k (fold_left (fun vs n => dset n c vs) l vs) = if smem k l then Some c else dget k vs.
   Proof.
@@ -544,9 +568,10 @@ Section Count.
     intros (Hnd & Hone & Hlt & Hex). unfold same_real.
     destruct (filter (fun i => dmem i (vars s)) l0) as [|h rest] eqn:El; [repeat split; assumption|].
     destruct (dget h (vars s)) as [c|] eqn:Ec; [|repeat split; assumption].
-    fold (sr_fold h rest (trainable s)).
+    destruct (sr_pair_fold h rest (trainable s) s) as [Et (Fv & _ & Fn & _)].
     unfold count_inv, one_per_cell, cells_below_next, free_exist, set_vars, set_train.
     cbn [vars trainable next heap cplx same bnd initv polar].
+    rewrite Et, Fv, Fn.
     assert (Hl : forall x, In x (h :: rest) -> dget x (vars s) <> None).
     { intros x Hx. rewrite <- El in Hx. apply filter_In in Hx. destruct Hx as [_ Hx].
       apply dmem_true_dget. exact Hx. }
@@ -591,7 +616,7 @@ Section Count.
     destruct o; simpl in Ev; try discriminate; simpl.
     - apply count_add_real. exact H.
     - apply count_add_complex. exact H.
-    - apply count_set_fix; [|exact H]. intros ->. exact Hs.
+    - apply count_set_fix. exact H.
     - apply count_set_same. exact H.
     - (* ShareR *)
       unfold set_share_r. eapply count_inv_ext; [| | |apply count_set_same; eapply count_inv_frame;
@@ -648,7 +673,8 @@ Section Ties.
     forall k, dget k (vars (same_real (h :: rest) s)) = if smem k (h :: rest) then Some c else dget k (vars s).
   Proof.
     intros Hall Hc k. unfold same_real. rewrite (filter_all _ _ Hall). rewrite Hc.
-    unfold set_vars, set_train. cbn [vars]. apply dget_fold_dset_cell.
+    destruct (sr_pair_fold h rest (trainable s) s) as [_ (Fv & _)].
+    unfold set_vars, set_train. cbn [vars]. rewrite Fv. apply dget_fold_dset_cell.
   Qed.
 
   Definition untied_reals (ns : list name) s :=
